@@ -126,7 +126,10 @@ def check_input(input_data, y=None, preprocessor=None,
   # We need to convert input_data into a numpy.ndarray if possible, before
   # any further checks or conversions, and deal with y if needed. Therefore
   # we use check_array/check_X_y with fixed permissive arguments.
-  if y is None:
+  if y is None or np.ndim(input_data) == 0:
+    # (a scalar has no samples to be matched with y: check_X_y would raise a
+    # TypeError for it, whereas the dimension checks below give the documented
+    # ValueError)
     input_data = check_array(input_data, ensure_2d=False, allow_nd=True,
                              copy=False, accept_sparse=True, dtype=None,
                              ensure_min_features=0, ensure_min_samples=0,
@@ -320,7 +323,11 @@ def check_tuple_size(tuples, tuple_size, context):
 
 def check_y_valid_values_for_pairs(y):
   """Checks that y values are in [-1, 1]"""
-  if not np.array_equal(np.abs(y), np.ones_like(y)):
+  try:
+    valid = np.array_equal(np.abs(y), np.ones_like(y))
+  except TypeError:  # labels that are not numbers
+    valid = False
+  if not valid:
     raise ValueError("When training on pairs, the labels (y) should contain "
                      "only values in [-1, 1]. Found an incorrect value.")
 
